@@ -28,3 +28,161 @@ Proof.
   destruct rest as [|l' r]; [destruct lvl; [reflexivity|cbn in H; lia]|]. change (reroute_last (l :: l' :: r) tgt) with (l :: reroute_last (l' :: r) tgt).
   destruct lvl as [|lvl]; [reflexivity|]. destruct x as [|c x]; [reflexivity|]. cbn [node_at]. apply IH. cbn in H. cbn. lia.
 Qed.
+
+(* ---------- bits of the selected element index ---------- *)
+Lemma sel_snoc xf b : sel (xf ++ [b]) = 2 * sel xf + (if b then 1 else 0).
+Proof. unfold sel. rewrite fold_left_app. reflexivity. Qed.
+Lemma sel_lt xf : sel xf < 2 ^ length xf.
+Proof. unfold sel. apply (fold_selstep_lt xf 0 0). cbn. lia. Qed.
+Lemma msb_sel : forall xf pos, pos < length xf -> msb (length xf) (sel xf) pos = nth pos xf false.
+Proof.
+  intros xf. induction xf as [|b xf IH] using rev_ind; intros pos H; [cbn in H; lia|].
+  rewrite app_length in *. cbn [length] in *. unfold msb. rewrite sel_snoc.
+  destruct (Nat.eq_dec pos (length xf)) as [->|Hne].
+  - replace (length xf + 1 - 1 - length xf) with 0 by lia. rewrite app_nth2, Nat.sub_diag by lia. cbn [nth].
+    destruct b; [apply Nat.testbit_odd_0|rewrite Nat.add_0_r; apply Nat.testbit_even_0].
+  - replace (length xf + 1 - 1 - pos) with (S (length xf - 1 - pos)) by lia. rewrite app_nth1 by lia.
+    destruct b.
+    + rewrite Nat.testbit_odd_succ by lia. apply IH. lia.
+    + rewrite Nat.add_0_r, Nat.testbit_even_succ by lia. apply IH. lia.
+Qed.
+
+(* ---------- inside one stacked component ---------- *)
+Lemma header_end t els nf roots : forall m s, s + S m = nf -> forall k xf, k < 2 ^ s -> length xf = S m ->
+  end_node t (map (hlevel t els nf roots) (seq s (S m))) k xf = nth (fold_left selstep xf k) roots 0.
+Proof.
+  induction m as [|m IH]; intros s Hs k xf Hk Hx; destruct xf as [|c xf]; try discriminate.
+  - destruct xf; [|discriminate]. cbn [seq map end_node fold_left]. rewrite getnode_hlevel by exact Hk.
+    replace (Nat.eqb (S s) nf) with true by (symmetry; apply Nat.eqb_eq; lia). unfold selstep. destruct c; cbn [child n_c0 n_c1]; f_equal; lia.
+  - change (seq s (S (S m))) with (s :: seq (S s) (S m)). cbn [map end_node fold_left]. rewrite getnode_hlevel by exact Hk.
+    replace (Nat.eqb (S s) nf) with false by (symmetry; apply Nat.eqb_neq; lia).
+    replace (child _ c) with (selstep k c) by (unfold selstep; destruct c; cbn [child n_c0 n_c1]; lia).
+    apply IH; [lia| |cbn in Hx; lia]. unfold selstep. cbn [Nat.pow]. destruct c; lia.
+Qed.
+Lemma header_node_at t els nf roots : forall i m s, s + S m = nf -> forall k x, k < 2 ^ s -> i <= m -> i <= length x ->
+  node_at t (map (hlevel t els nf roots) (seq s (S m))) k x i = fold_left selstep (firstn i x) k.
+Proof.
+  induction i as [|i IH]; intros m s Hs k x Hk Hi Hx; [reflexivity|]. destruct x as [|c x]; [cbn in Hx; lia|].
+  destruct m as [|m]; [lia|]. change (seq s (S (S m))) with (s :: seq (S s) (S m)). cbn [map node_at firstn fold_left].
+  rewrite getnode_hlevel by exact Hk. replace (Nat.eqb (S s) nf) with false by (symmetry; apply Nat.eqb_neq; lia).
+  replace (child _ c) with (selstep k c) by (unfold selstep; destruct c; cbn [child n_c0 n_c1]; lia).
+  apply IH; [lia| |lia|cbn in Hx; lia]. unfold selstep. cbn [Nat.pow]. destruct c; lia.
+Qed.
+
+Lemma zip_node_at t els depth (Hel : forall e, In e els -> okd e /\ d_type e = t /\ length (d_levels e) = depth) q :
+  q < length els -> forall m i0, i0 + m = depth -> forall i j x, i <= m -> i <= length x ->
+  good_from t (diameter (nth q els (mkADD (plain []) [] 0 []))) (skipn i0 (d_levels (nth q els (mkADD (plain []) [] 0 [])))) j ->
+  node_at t (map (zlevel els) (seq i0 m)) (nth q (offsets els 0) 0 + j) x i
+  = nth q (offsets els 0) 0 + node_at t (skipn i0 (d_levels (nth q els (mkADD (plain []) [] 0 [])))) j x i.
+Proof.
+  intros Hq. set (e0 := mkADD (plain []) [] 0 []). destruct (Hel _ (nth_In els e0 Hq)) as [[_ [Rc _]] [_ Hd]]. set (Le := d_levels (nth q els e0)) in *.
+  induction m as [|m IH]; intros i0 Hi0 i j x Hi Hx G; [assert (i = 0) by lia; subst i; destruct (skipn i0 Le); reflexivity|].
+  destruct i as [|i]; [destruct (skipn i0 Le); reflexivity|]. destruct x as [|c x]; [cbn in Hx; lia|].
+  cbn [seq map node_at]. rewrite (skipn_cons_nth [] i0 Le) in * by lia. cbn [node_at good_from] in *. destruct G as [G1 [G2 [G3 G4]]].
+  assert (Hin : In (nth i0 Le []) Le) by (apply nth_In; lia).
+  assert (Hj : j < diameter (nth q els e0)) by (rewrite <- (Rc (nth i0 Le []) Hin); exact G1).
+  rewrite (getnode_zlevel t els depth Hel i0 q j) by (try assumption; lia). fold e0. fold Le. set (n := getnode t (nth i0 Le []) j) in *.
+  replace (child (shift_node (nth q (offsets els 0) 0) n) c) with (nth q (offsets els 0) 0 + child n c) by (destruct c; cbn; lia).
+  apply IH; [lia|lia|cbn in Hx; lia|destruct c; assumption].
+Qed.
+
+Lemma offsets_repeat e : forall k a q, q < k -> nth q (offsets (repeat e k) a) 0 = a + q * diameter e.
+Proof.
+  induction k as [|k IH]; intros a q H; [lia|]. cbn [repeat offsets]. destruct q as [|q]; cbn [nth]; [lia|]. rewrite IH by lia. lia.
+Qed.
+Lemma chain_diameter t units : diameter (chain t units) = 1.
+Proof. unfold diameter, chain. cbn [d_levels]. destruct units; reflexivity. Qed.
+Lemma nth_repeat_same {A} (a d : A) k q : q < k -> nth q (repeat a k) d = a.
+Proof. apply nth_repeat_in. Qed.
+
+(* the node reached at level i of a component: the factor values read so far (header), then the selected copy *)
+Theorem comp_node_at t (c : comp) xf xl i : length xf = length (fst c) -> length xl = length (snd c) -> i < comp_size c ->
+  node_at t (d_levels (comp_add t c)) (d_root (comp_add t c)) (xf ++ xl) i
+  = if i <? length (fst c) then sel (firstn i xf) else sel xf.
+Proof.
+  destruct c as [F L]. cbn [fst snd]. unfold comp_size. cbn [fst snd]. intros Hf Hl Hi. unfold comp_add. cbn [fst snd].
+  destruct F as [|f F'].
+  - destruct xf; [|discriminate]. cbn [length Nat.pow repeat] in *. cbn [add_stack app Nat.ltb Nat.leb]. cbn [chain d_levels d_root].
+    rewrite chain_node_at. reflexivity.
+  - set (F := f :: F') in *. set (els := repeat (chain t L) (2 ^ length F)).
+    assert (Hel : forall e, In e els -> okd e /\ d_type e = t /\ length (d_levels e) = length L).
+    { intros e He. apply repeat_spec in He. subst e. split; [apply chain_okd|]. split; [reflexivity|]. cbn [chain d_levels]. apply map_length. }
+    assert (HF : F <> []) by discriminate.
+    assert (Hn : length els = 2 ^ length F) by (unfold els; apply repeat_length).
+    destruct (stack_shape t F els (length L) HF Hn Hel) as [e [els' [E [Ht [Hd ES]]]]]. rewrite ES. cbn [d_levels d_root].
+    set (nf := length F) in *. set (roots := map (fun eo : add * nat => d_root (fst eo) + snd eo) (combine els (offsets els 0))) in *.
+    assert (Hnf : nf = S (nf - 1)) by (unfold nf, F; cbn; lia).
+    assert (LH : length (map (hlevel t els nf roots) (seq 0 nf)) = nf) by (rewrite map_length, seq_length; reflexivity).
+    destruct (Nat.ltb_spec i nf) as [Hlt|Hge].
+    + rewrite node_at_app_l by (rewrite ?LH, ?app_length; lia).
+      replace (seq 0 nf) with (seq 0 (S (nf - 1))) by (rewrite <- Hnf; reflexivity).
+      rewrite (header_node_at t els nf roots i (nf - 1) 0) by (try lia; try (cbn; lia); rewrite app_length; lia).
+      rewrite firstn_app. replace (i - length xf) with 0 by lia. cbn [firstn]. rewrite app_nil_r. reflexivity.
+    + replace i with (length (map (hlevel t els nf roots) (seq 0 nf)) + (i - nf)) by (rewrite LH; lia).
+      rewrite node_at_app_r by (rewrite LH; exact Hf).
+      replace (seq 0 nf) with (seq 0 (S (nf - 1))) by (rewrite <- Hnf; reflexivity).
+      rewrite (header_end t els nf roots (nf - 1) 0) by (try lia; cbn; lia). fold (sel xf).
+      set (q := sel xf). assert (Hq : q < length els) by (rewrite Hn; unfold q; rewrite <- Hf; apply sel_lt).
+      unfold roots. rewrite (roots_nth F els Hn q Hq).
+      assert (Eq : nth q els (mkADD (plain []) [] 0 []) = chain t L) by (unfold els; apply nth_repeat_same; rewrite <- Hn; exact Hq).
+      assert (Eo : nth q (offsets els 0) 0 = q).
+      { unfold els. rewrite offsets_repeat by (unfold els in Hq; rewrite repeat_length in Hq; exact Hq). rewrite chain_diameter. lia. }
+      rewrite (zip_node_at t els (length L) Hel q Hq (length L) 0 eq_refl (i - nf) (d_root (nth q els (mkADD (plain []) [] 0 []))) xl); try lia.
+      * rewrite Eq, Eo. cbn [skipn chain d_levels d_root]. rewrite chain_node_at. lia.
+      * cbn [skipn]. rewrite Eq. destruct (chain_okd t L) as [_ [_ G]]. exact G.
+Qed.
+
+(* ---------- across concatenated elements ---------- *)
+Lemma node_at_prefix t : forall lvls j x1 x2 i, i <= length x1 -> node_at t lvls j (x1 ++ x2) i = node_at t lvls j x1 i.
+Proof.
+  induction lvls as [|l rest IH]; intros j x1 x2 i H; destruct i as [|i]; try reflexivity.
+  destruct x1 as [|c x1]; [cbn in H; lia|]. cbn [app node_at]. apply IH. cbn in H. lia.
+Qed.
+
+Definition e0' (t : atype) : add := mkADD t [] 0 [].
+Fixpoint start_of (els : list add) (k : nat) : nat :=
+  match els, k with e :: rest, S k' => length (d_levels e) + start_of rest k' | _, _ => 0 end.
+
+Lemma concat_node_at t w : forall els xs, els <> [] -> Forall2 (piece_ok t) els xs ->
+  forall k i, k < length els -> i < length (d_levels (nth k els (e0' t))) ->
+  node_at t (concat_levels t w els) (d_root (hd (mkADD t [] 0 []) els)) (concat xs) (start_of els k + i)
+  = node_at t (d_levels (nth k els (e0' t))) (d_root (nth k els (e0' t))) (nth k xs []) i.
+Proof.
+  induction els as [|e els IH]; intros xs Hne HF k i Hk Hi; [contradiction|].
+  destruct (Forall2_cons_l _ _ _ _ HF) as [x [xs' [-> [[O [Ht [Hl Hx]]] HF']]]].
+  destruct els as [|e' els'].
+  - assert (k = 0) by (cbn in Hk; lia). subst k. apply Forall2_nil_l in HF'. subst xs'.
+    cbn [concat_levels concat start_of hd nth Nat.add] in *. rewrite app_nil_r. apply node_at_pad.
+  - change (concat_levels t w (e :: e' :: els')) with (map (pad_level t w) (reroute_last (d_levels e) (d_root e')) ++ concat_levels t w (e' :: els')).
+    assert (LL : length (map (pad_level t w) (reroute_last (d_levels e) (d_root e'))) = length (d_levels e)) by (rewrite map_length; apply reroute_last_length).
+    cbn [concat hd]. destruct k as [|k].
+    + cbn [start_of nth Nat.add] in *. rewrite node_at_app_l by (rewrite ?LL, ?app_length; lia).
+      rewrite node_at_pad, node_at_reroute by exact Hi. apply node_at_prefix. lia.
+    + cbn [start_of nth] in *. rewrite <- LL at 1. rewrite <- Nat.add_assoc. rewrite node_at_app_r by (rewrite LL; exact Hx).
+      rewrite end_pad. destruct O as [_ [_ G]]. rewrite Ht in G.
+      destruct (reroute_eval t (d_root e') _ (d_levels e) (d_root e) None x G Hx Hl) as [_ E2]. rewrite E2.
+      apply (IH xs' ltac:(discriminate) HF' k i); [cbn in Hk; cbn; lia|exact Hi].
+Qed.
+
+(* cutting an assignment into the pieces of the elements *)
+Fixpoint chunks (sizes : list nat) (y : list bool) : list (list bool) :=
+  match sizes with [] => [] | s :: rest => firstn s y :: chunks rest (skipn s y) end.
+Lemma concat_chunks : forall sizes y, length y = fold_right Nat.add 0 sizes -> concat (chunks sizes y) = y.
+Proof.
+  induction sizes as [|s rest IH]; intros y H; cbn [chunks concat fold_right] in *; [destruct y; [reflexivity|discriminate]|].
+  rewrite IH by (rewrite skipn_length; lia). apply firstn_skipn.
+Qed.
+Lemma chunks_length : forall sizes y k, length y = fold_right Nat.add 0 sizes -> k < length sizes ->
+  length (nth k (chunks sizes y) []) = nth k sizes 0.
+Proof.
+  induction sizes as [|s rest IH]; intros y k H Hk; [cbn in Hk; lia|]. cbn [chunks fold_right] in *. destruct k as [|k]; cbn [nth].
+  - rewrite firstn_length. lia.
+  - apply IH; [rewrite skipn_length; lia|cbn in Hk; lia].
+Qed.
+Lemma chunks_nth : forall sizes y k pos, k < length sizes -> pos < nth k sizes 0 ->
+  nth pos (nth k (chunks sizes y) []) false = nth (fold_right Nat.add 0 (firstn k sizes) + pos) y false.
+Proof.
+  induction sizes as [|s rest IH]; intros y k pos Hk Hp; [cbn in Hk; lia|]. cbn [chunks]. destruct k as [|k]; cbn [nth firstn fold_right] in *.
+  - apply nth_firstn_lt. exact Hp.
+  - cbn [length] in Hk. rewrite IH by (try exact Hp; lia). rewrite nth_skipn_add. f_equal. lia.
+Qed.
